@@ -22,7 +22,7 @@ from engine.report import Report
 from props.parallel_guard import cond_blocks, reach_without
 
 T = 'src/ast/transform/'
-UNITS = [(T + 'MinimiseProgram.cpp', r'transform/MinimiseProgram\.cpp$', r'reduceSingletonRelations'),
+UNITS = [(T + 'MinimiseProgram.cpp', r'transform/MinimiseProgram\.cpp$', r'reduceSingletonRelations|areEquivalentRelations'),
          (T + 'RemoveEmptyRelations.cpp', r'transform/RemoveEmptyRelations\.cpp$', r'::removeEmptyRelations$'),
          (T + 'RemoveRelationCopies.cpp', r'transform/RemoveRelationCopies\.cpp$', r'::removeRelationCopies$'),
          (T + 'RemoveRedundantRelations.cpp', r'transform/RemoveRedundantRelations\.cpp$', r'::transform$'),
@@ -481,6 +481,69 @@ def rule_iotype(rep, u):
     rep.ob('R0-iotype-records-outputs', 'IOTypeAnalysis::isIO', ok, io[0].where, '' if ok else 'isIO is no longer the disjunction including isInput and isOutput (calls: %s)' % sorted(x for x in called if x))
 
 
+def rule_inline_inventory(rep, sc):
+    """R3: `inline` is only accepted where inlining preserves results.  SemanticCheckerImpl::checkInlining (with its lambdas) must report
+    an error for each category the maintainers (and this verification, for choice-domains) know inlining cannot preserve."""
+    main = [f for f in sc.functions if f.name == 'checkInlining' and not f.is_lambda]
+    if not main:
+        rep.analysis_broken('SemanticCheckerImpl::checkInlining not found')
+        return
+    fam = [f for f in sc.functions if f is main[0] or (f.is_lambda and '::checkInlining(' in f.qname)]
+
+    def errs(f):
+        return [m for m in f.walk() if is_call(m, 'addError')]
+
+    def targs(f, name):
+        return {t.split('::')[-1] for m in f.walk() if is_call(m, name) for t in (m.get('ta') or [])}
+
+    def ptype(f):
+        return {p['t'].replace('const ', '').strip(' &').split('::')[-1] for p in f.d['params']}
+    calls = lambda f: {m.get('cn') for m in f.walk() if is_call(m)}
+    own = lambda f: [m for m in f.walk()]          # lambdas nested in f are separate Funcs, but their bodies are also in f's tree
+    m0 = main[0]
+    cats = [
+        ('I1-io-relations', any(errs(f) and 'isIO' in calls(f) for f in [m0]), 'an IO relation must not be inlined'),
+        ('I2-choice-domain-relations', any(errs(f) and 'getFunctionalDependencies' in calls(f) for f in [m0]),
+         'a relation with a choice-domain must not be inlined: inlining replaces it by its rule bodies and the choice is lost'),
+        ('I3-inline-cycles', 'findInlineCycle' in calls(m0) and bool(errs(m0)), 'cyclically dependent inlined relations'),
+        ('I4-counter-in-inlined-atom-or-clause', sum(1 for f in fam if f.is_lambda and 'Argument' in ptype(f) and 'Counter' in targs(f, 'isA') and errs(f)) >= 2,
+         'the counter `$` inside inlined atoms and inside clauses of inlined relations'),
+        ('I5-negated-relation-introducing-variables', any(f.is_lambda and 'Negation' in ptype(f) and errs(f) and
+                                                            any(is_call(m, 'find') and 'nonNegatable' in expr_key(call_obj(m)) or
+                                                                (is_call(m, 'contains') and 'nonNegatable' in expr_key(m)) for m in f.walk()) for f in fam) or
+         any(f.is_lambda and 'Negation' in ptype(f) and errs(f) and any(x.get('name', '').lower().startswith('nonnegat') for x in f.walk() if x['k'] == 'DeclRefExpr') for f in fam),
+         'a negated inlined relation whose body introduces new variables'),
+        ('I6-inlined-atom-in-aggregator', any(f.is_lambda and 'Atom' in ptype(f) and errs(f) and 'Aggregator' in f.qname for f in fam),
+         'an inlined relation used inside an aggregator'),
+        ('I7-unnamed-variable-in-negated-inlined-atom', any(f.is_lambda and 'Negation' in ptype(f) and errs(f) and
+                                                              any(m['k'] == 'CXXOperatorCallExpr' and m.get('op') == '()' for m in f.walk()) for f in fam) and
+         any(f.is_lambda and 'UnnamedVariable' in targs(f, 'isA') for f in fam), 'an unnamed variable in a negated inlined atom'),
+    ]
+    for name, ok, why in cats:
+        rep.ob('R3-inline-exclusion-inventory', name, bool(ok), m0.where, '' if ok else 'checkInlining no longer rejects: ' + why)
+    rep.floor('R3-inline-categories', len(cats), 7)
+
+
+def rule_fd_not_merged(rep, units):
+    """R4: transformers that replace one relation by another (alias map + renameAtoms) never do so for relations with functional
+    dependencies -- such a relation CHOOSES among its tuples and is not interchangeable with a relation of the same body"""
+    n = 0
+    for u in units:
+        fns = {f.name: f for f in u.functions if not f.is_lambda}
+        for f in u.functions:
+            if f.is_lambda or not any(is_call(m, 'renameAtoms') for m in f.walk()) or not any(s_[0] == 'removeRelation' for s_ in sinks_of(f)):
+                continue
+            n += 1
+            direct = any(is_call(m, 'getFunctionalDependencies') for m in f.walk())
+            via = [g.name for name, g in fns.items() if g is not f and any(is_call(m, 'getFunctionalDependencies') for m in g.walk())
+                   and any(is_call(m, name) for m in f.walk())]
+            ok = direct or bool(via)
+            rep.ob('R4-choice-relations-never-merged', '%s::%s' % (f.qname.split('::')[-2], f.name), ok, f.where,
+                   '' if ok else 'this transformer replaces relations by equivalent ones without excluding relations that have a choice-domain '
+                   '(the sibling RemoveRelationCopies excludes them): consumers of a merged choice relation see a different relation')
+    rep.floor('R4-merging-transformers', n, 2)
+
+
 def analyse(rep, everything=False):
     us = facts.extract(UNITS)
     rep.add_units(us)
@@ -495,6 +558,10 @@ def analyse(rep, everything=False):
         for f in fs:
             n += decide_function(rep, u, f, ext_ok)
     rep.floor('R1-elimination-sites', n, 5)
+    rule_fd_not_merged(rep, [by['MinimiseProgram.cpp'], by['RemoveRelationCopies.cpp']])
+    sc, = facts.extract([('src/ast/transform/SemanticChecker.cpp', r'transform/SemanticChecker\.cpp$', r'checkInlining')])
+    rep.add_units([sc])
+    rule_inline_inventory(rep, sc)
     if everything:
         # who-may-eliminate: any other transformer reaching Program::removeRelation gets the same obligation
         known = {os.path.basename(x[0]) for x in UNITS}
@@ -512,6 +579,17 @@ def analyse(rep, everything=False):
 
 
 MUTANTS = [
+    ('choice-relations-merged-by-minimise', T + 'MinimiseProgram.cpp', '''    if (!firstRelation->getFunctionalDependencies().empty() ||
+            !secondRelation->getFunctionalDependencies().empty()) {
+        return false;
+    }
+''', '', 'R4'),
+    ('choice-relations-may-be-inlined', 'src/ast/transform/SemanticChecker.cpp', '''            if (!relation->getFunctionalDependencies().empty()) {
+                report.addError("Relation " + toString(relation->getQualifiedName()) +
+                                        " with a choice-domain cannot be inlined",
+                        relation->getSrcLoc());
+            }
+''', '', 'R3'),
     ('minimise-considers-io-relations', T + 'MinimiseProgram.cpp', '''        if (ioTypes.isIO(rel)) continue;
 
         auto clauses = program.getClauses(*rel);''', '''        auto clauses = program.getClauses(*rel);''', 'R1'),
